@@ -1035,6 +1035,10 @@ class InterpExpr:
         if attr == 'logger':
             return LoggerV()
         ft = self.ts.field_type(cls, attr)
+        if ft is None:
+            ic = self.init_constant(obj, attr)
+            if ic is not NotImplemented:
+                return ic
         if ft is not None and (self.ct.is_field(cls, attr) or (cls, attr) in getattr(self.ts.shapes, 'FIELD_TYPES', {})
                                or ('*', attr) in getattr(self.ts.shapes, 'FIELD_TYPES', {})):
             return self.read_field(obj, attr)
@@ -1087,6 +1091,50 @@ class InterpExpr:
                     return self.read_field(ObjV(obj.ref, cs[0], obj.heap), attr)
         ft, cs = glist[-1]
         return self.read_field(ObjV(obj.ref, cs[0], obj.heap), attr)
+    def init_constant(self, obj, attr):
+        """untyped attribute whose only writer in the whole repository is one unconditional `self.attr = <constant
+        expression>` statement at the top level of the __init__ that constructs objects of the receiver's exact class
+        (e.g. `self.pickup_logic = max`): reading it yields that constant (the instance attribute shadows any class-level
+        default). NotImplemented when the pattern does not apply; Unsupported when it applies only partly."""
+        cache = self.ct.__dict__.setdefault('_attr_writers', {})
+        writers = cache.get(attr)       # (class, method name, top-level?, value AST)
+        for cname, ci in (self.ct.classes.items() if writers is None else ()):
+            writers = cache.setdefault(attr, [])
+            if ci.module.startswith('supervisor.'):
+                continue
+            for m in list(ci.methods.values()) + list(ci.setters.values()) + list(ci.getters.values()):
+                for sub in ast.walk(m.node):
+                    tgts = sub.targets if isinstance(sub, ast.Assign) else [sub.target] if isinstance(sub, (ast.AugAssign, ast.AnnAssign)) else []
+                    for t in tgts:
+                        for tt in (t.elts if isinstance(t, ast.Tuple) else [t]):
+                            if isinstance(tt, ast.Attribute) and tt.attr == attr:
+                                is_self = isinstance(tt.value, ast.Name) and tt.value.id == 'self'
+                                writers.append((cname if is_self else None, m.name, sub in m.node.body, getattr(sub, 'value', None)))
+        if not cache.get(('mod', attr)):
+            cache[('mod', attr)] = True
+            for mod in self.ct.modules.values():     # module-level functions writing <expr>.attr
+                for f in ([] if mod.name.startswith(('supervisor.', 'contracts')) else mod.functions.values()):
+                    for sub in ast.walk(f.node):
+                        if isinstance(sub, ast.Attribute) and sub.attr == attr and isinstance(sub.ctx, ast.Store):
+                            writers.append((None, f.name, False, None))
+        if not writers:
+            return NotImplemented
+        mro = self.ct.mro(obj.cls)
+        related = [w for w in writers if w[0] is None or w[0] in mro or obj.cls in self.ct.mro(w[0])]
+        if not related:
+            return NotImplemented
+        init = self.ct.find_method(obj.cls, '__init__')
+        if (not self.is_exact(obj) or init is None or len(related) != 1 or related[0][0] != init.cls
+                or related[0][1] != '__init__' or not related[0][2]):
+            raise Unsupported(f'{obj.cls}.{attr}: untyped attribute that is not a constant set once by the constructor of '
+                              f'an exact receiver class (writers: {[(w[0], w[1]) for w in related]}); declare its type in '
+                              f'contracts/shapes.py FIELD_TYPES')
+        v = related[0][3]
+        ok = isinstance(v, ast.Constant) or (isinstance(v, ast.Name) and v.id in self.BUILTIN_NAMES) or (
+            isinstance(v, ast.Attribute) and isinstance(v.value, ast.Name) and v.value.id in self.ct.classes)
+        if not ok:
+            raise Unsupported(f'{obj.cls}.{attr}: constructor value is not a constant expression')
+        return self.ev(v, Frame(None, init.module, {}, None, init.cls))
 
     def class_const(self, cc):
         dc, node = cc
@@ -2244,6 +2292,9 @@ class InterpCall:
             return self.call_builtin(f, args, kwargs, line, node, fr)
         if isinstance(f, ClassV):
             return self.construct(f.name, args, kwargs, line)
+        if isinstance(f, OldNS) and self.mode == SPEC and len(args) == 1:
+            # old(x) / loop_old(x) in a specification: the reference value x viewed in that earlier heap
+            return self.pin(args[0], f.heap)
         if isinstance(f, SV) and isinstance(f.ty, TOpt):
             self.partial(self.neg(self.opt_is_none(f)), 'TypeError', line)
         if f is None:
